@@ -525,6 +525,95 @@ def getters(prog, rep, roles):
     return n
 
 
+def is_empty_getters(prog, rep):
+    """`is_empty(&self)` of the extension types answers true exactly when every field that some library code can write is empty (a field nobody writes
+    stays empty and may be left out - C12 ITEM-UNPRINTED).  Decided path by path: a path that answers true knows every such field to be empty, a path
+    that answers false knows one of them to be non-empty, a path that answers with the emptiness of one field knows all the others to be empty."""
+    from . import c12
+    c12.FACTS[0] = prog.facts
+    n = 0
+    for ty in ('ExtensionsMap', 'UnicodeExtensionList', 'TransformExtensionList', 'PrivateExtensionList'):
+        full, adt = terms.find_adt(prog.facts, ty)
+        if adt is None:
+            continue
+        fs = adt['variants'][0]['fields']
+        fns = [f for f, b in prog.bodies.items() if f.startswith('unic_locale_impl::') and b['kind'] == 'AssocFn' and b.get('impl') and not b['impl']['trait']
+               and b['impl']['self_ty'].split('::')[-1] == ty and f.endswith('::is_empty') and b['sig'] and b['sig']['output'] == 'bool']
+        written = set()
+        for i in range(len(fs)):
+            for fn2, b2 in prog.bodies.items():
+                if not fn2.startswith('unic_locale_impl::') or (b2.get('impl') and b2['impl'].get('derived')) or not b2.get('mir'):
+                    continue
+                for blk in b2['mir']['blocks']:
+                    if blk['cleanup']:
+                        continue
+                    for st_ in blk['stmts']:
+                        if st_['k'] == 'assign' and (c12.mentions_field(b2, st_['lhs'], ty, i) or
+                                                     (st_['rv']['k'] in ('ref', 'rawptr') and st_['rv'].get('mut') and c12.mentions_field(b2, st_['rv']['p'], ty, i))):
+                            written.add(i)
+        for fn in fns:
+            n += 1
+            b = prog.bodies[fn]
+            sub = set(f for f, bb in prog.bodies.items() if f.endswith('::is_empty') and f != fn and f.startswith(('unic_locale_impl::', 'unic_langid_impl::')))
+            e = pxm.PX(prog, opaque=sub)
+            segs = e.explore(fn)
+            bad = []
+            for s in segs:
+                if s.kind != 'return':
+                    bad.append('path ends in %s' % s.kind)
+                    continue
+                known = {}
+
+                def field_of(t):
+                    ap = terms.access_path(t)
+                    if ap and ap[0] == 1 and ap[1]:
+                        p0 = terms.strip_some(ap[1])
+                        if p0 and isinstance(p0[0], int):
+                            return p0[0]
+                    return None
+                for k, v in s.state.facts.items():
+                    if k[0] in ('pure', 'call') and isinstance(k[1], str) and k[1].endswith('::is_empty') and k[2]:
+                        fi = field_of(k[2][0])
+                        if fi is not None:
+                            known[fi] = bool(v)
+                    elif k[0] == 'tag':
+                        fi = field_of(k[1])
+                        if fi is not None and terms.norm_ty(fs[fi]['ty']).startswith('std::option::Option<'):
+                            known[fi] = (v == 'neg')
+                    elif k[0] == 'bin' and k[1] == 'Eq' and k[3] == ('int', 0) and k[2][0] in ('pure', 'len'):
+                        x = k[2][2][0] if k[2][0] == 'pure' and k[2][2] else None
+                        fi = field_of(x) if x is not None else None
+                        if fi is not None:
+                            known[fi] = bool(v)
+                need = sorted(written)
+                empt = [i for i in need if known.get(i) is True]
+                nonempty = [i for i in need if known.get(i) is False]
+                unknown = [i for i in need if i not in known]
+                r = s.ret
+                names = lambda ii: [fs[i]['name'] for i in ii]
+                if r == ('int', 1):
+                    if nonempty or unknown:
+                        bad.append('answers "empty" although %s may hold something' % names(nonempty + unknown))
+                elif r == ('int', 0):
+                    if not nonempty:
+                        bad.append('answers "not empty" although no field is known to hold anything (known empty: %s)' % names(empt))
+                else:
+                    rf = None
+                    if r[0] in ('pure', 'call') and isinstance(r[1], str) and r[1].endswith('::is_empty') and r[2]:
+                        rf = field_of(r[2][0])
+                    elif r[0] == 'pred' and r[1] == 'tag' and r[3] == 'neg':
+                        rf = field_of(r[2])
+                    elif r[0] == 'bin' and r[1] == 'Eq' and r[3] == ('int', 0) and r[2][0] == 'pure' and r[2][2]:
+                        rf = field_of(r[2][2][0])
+                    if rf is None:
+                        bad.append('INCONCLUSIVE(result %s)' % e.short(r, 120))
+                    elif nonempty or [i for i in unknown if i != rf]:
+                        bad.append('answers with the emptiness of %s alone although %s may hold something' % (fs[rf]['name'], names(nonempty + [i for i in unknown if i != rf])))
+            rep.ob('isempty:%s' % ty, 'TS-ISEMPTY', fn, b['span'], '%s::is_empty is true exactly when every field the library can fill is empty' % ty, not bad and bool(segs),
+                   detail='\n'.join(sorted(set(bad))[:4]), how='%d paths over fields %s' % (len(segs), [fs[i]['name'] for i in sorted(written)]))
+    return n
+
+
 def raw_ctor_callers(prog, rep, allinv):
     """who-may-call rule for the unchecked constructors: every in-repository caller must pass canonical variants"""
     from .. import callgraph
@@ -688,6 +777,8 @@ def mutator_obligations(rep, cfgs=('K0', 'K1'), with_getters=True):
         if cfg == 'K0':
             for fn, ty in mu.constructors(prog):
                 n_ctor += mu.check_constructor(prog, fn, ty, allinv, rep, EXEMPT_CTORS)
+            ne = is_empty_getters(prog, rep)
+            rep.floor('is_empty getters of the extension types', ne, 4)
             if with_getters:
                 ng = getters(prog, rep, roles)
                 rep.floor('validating getters', ng, 5)
